@@ -196,10 +196,23 @@ class Renderer:
 
     def pos_arg(self, n: int, half: bool) -> str:
         k = self.ch(4)
+
+        def whole():
+            # DECIMAL: '-'? DIGIT+ '.' DIGIT+ | '-'? '.' DIGIT+ - the whole part may carry leading zeros or be missing
+            z = self.ch(4)
+            sign, digits = ("-", str(-n)) if n < 0 else ("", str(n))
+            if z == 1:
+                self.dims.add("pos_decimal_zeros")
+                return sign + "0" * (1 + self.ch(3)) + digits
+            if z == 2 and n == 0:
+                self.dims.add("pos_decimal_zeros")
+                return ""
+            return sign + digits
+
         if half:
-            return f"{n}.5" + ("0" * k if k < 3 else "")
+            return f"{whole()}.5" + ("0" * k if k < 3 else "")
         if k == 1:
-            return f"{n}.0"
+            return f"{whole()}.0"
         if k == 2:
             return spell_int(n, self.ch, self.dims)
         return str(n)
